@@ -188,7 +188,7 @@ pub fn run(ctx: &mut Ctx) {
         extras: true,
         all_widths: true,
     };
-    ctx.meta("rule", "cases: (tree, per-element options); trees = forests over V up to the node bound + deep spines + size-boundary documents (payload / master content of 124..128 and 16379..16384 bytes); options = every known/unknown choice of masters x deviations among size width 1..8 per master/leaf and payload class. For each case the real writer is driven with (a) Start/children/End, (b) EVERY way of collapsing masters into Full items, (c) the deprecated unknown-size call, (d) destinations that accept only a few bytes per write (all compositions for outputs <= 10 bytes, else <= 3 deviations, incl. Interrupted). Oracle: (b),(c),(d) byte-identical to (a); (a) walked with RefCodec guided by the tree: ids, payloads, order, size values == actual content lengths, requested width exact, unknown => all-ones, never the reserved all-ones for a known size; a width that cannot hold the size must be rejected with TagSizeError. Non-trivial: presentations whose call count differs from (a).");
+    ctx.meta("rule", "cases: (tree, per-element options); trees = forests over V up to the node bound + deep spines + size-boundary documents (payload / master content of 124..128 and 16379..16384 bytes); options = every known/unknown choice of masters x deviations among size width 1..8 per master/leaf and payload class. For each case the real writer is driven with (a) Start/children/End, (b) EVERY way of collapsing masters into Full items, (c) the deprecated unknown-size call, (c2) Ends carrying the option of their Start, (c3) the trailing Ends left to into_inner(), (d) destinations that accept only a few bytes per write (all compositions for outputs <= 10 bytes, else <= 3 deviations, incl. Interrupted). Oracle: (b),(c),(c2),(c3),(d) byte-identical to (a); (a) walked with RefCodec guided by the tree: ids, payloads, order, size values == actual content lengths, requested width exact, unknown => all-ones, never the reserved all-ones for a known size; a width that cannot hold the size must be rejected with TagSizeError. Non-trivial: presentations whose call count differs from (a).");
     ctx.meta("bounds", &format!("forests <= {} elements, <= {} option deviations, all Full antichains", p.max_nodes, p.devs));
     ctx.meta("assumptions", "default (unrequested) size widths are not constrained beyond well-formedness || whether an explicit master width can hold its content is judged with minimal inner widths");
     for c in ["closed_by_into_inner", "ends_carrying_options", "full_presentations", "deprecated_unknown_presentations", "short_write_schedules", "explicit_width_too_small_rejected", "size_boundary_docs"] {
